@@ -17,7 +17,7 @@ def comment_safe(t):
     return t.replace("*/", "* /").replace("/*", "/ *")
 
 
-def layout(text):
+def layout(text, dollarbar=True):
     """the specification holding `text` in every kind of user-code region.
     Returns (source, {region: (expected text, source line)})."""
     L = []; where = {}
@@ -33,7 +33,7 @@ def layout(text):
     add("#include <stdio.h>")
     add("#include <string.h>")
     where["sect1block"] = (text, here()); add("static const char *t_s1b = %s; static int l_s1b = __LINE__; %s" % (E, CM))
-    add("static const char *g_s2, *g_act, *g_brace, *g_bar; static int gl_s2, gl_act, gl_brace, gl_bar;")
+    add("static const char *g_s2, *g_act, *g_brace, *g_bar, *g_db; static int gl_s2, gl_act, gl_brace, gl_bar, gl_db;")
     add("%}")
     where["sect1indent"] = (text, here()); add("    static const char *t_s1i = %s; static int l_s1i = __LINE__; %s" % (E, CM))
     add("%option noyywrap")
@@ -59,14 +59,17 @@ def layout(text):
     add("     }")
     add("c    |")
     where["actionbar"] = (text, here()); add("d    { g_bar = %s; gl_bar = __LINE__; %s }" % (E, CM))
+    if dollarbar:       # (a $ rule after a | action is compiled as variable trailing context: not with full tables)
+        add("e    |")
+        where["actiondollarbar"] = (text, here()); add("f$   { g_db = %s; gl_db = __LINE__; %s }" % (E, CM))
     add(".|\\n  ;")
     add("%%")
     where["sect3"] = (text, here()); add("static const char *t_s3 = %s; static int l_s3 = __LINE__; %s" % (E, CM))
     add("static void show(const char *r, const char *t, int l) { size_t i; printf(\"{\\\"region\\\":\\\"%s\\\",\\\"line\\\":%d,\\\"text\\\":[\", r, l);")
     add("  for (i = 0; t && i < strlen(t); i++) printf(\"%s%d\", i ? \",\" : \"\", (unsigned char)t[i]); printf(\"]}\\n\"); }")
-    add("int main(void) { yy_scan_string(\"abcd\"); while (yylex()) ; (void)ww_top();")
+    add("int main(void) { yy_scan_string(\"abcdf\\n\"); while (yylex()) ; (void)ww_top();")
     add("  show(\"top\", t_top, l_top); show(\"sect1block\", t_s1b, l_s1b); show(\"sect1indent\", t_s1i, l_s1i); show(\"sect2decl\", g_s2, gl_s2);")
-    add("  show(\"action\", g_act, gl_act); show(\"actionbrace\", g_brace, gl_brace); show(\"actionbar\", g_bar, gl_bar); show(\"sect3\", t_s3, l_s3);")
+    add("  show(\"action\", g_act, gl_act); show(\"actionbrace\", g_brace, gl_brace); show(\"actionbar\", g_bar, gl_bar); if (g_db) show(\"actiondollarbar\", g_db, gl_db); show(\"sect3\", t_s3, l_s3);")
     add("  return 0; }")
     return "\n".join(L) + "\n", where
 
@@ -75,7 +78,7 @@ def observe(flexdir, text, noline=False, cfgargs=(), split=False):
     """split: the specification is given to flex as two input files (flex in.l in2.l), cut in the rules section;
     code of the second file has to be located by its line in that file"""
     wd = tempfile.mkdtemp(prefix="uc.", dir=os.environ.get("VERIF_SCRATCH", "/tmp"))
-    src, where = layout(text)
+    src, where = layout(text, dollarbar=not any("f" in a.lower() for a in cfgargs if a.startswith("-C")))
     lp = os.path.join(wd, "in.l"); cp = os.path.join(wd, "scan.c"); exe = os.path.join(wd, "scan")
     inputs = [lp]
     if split:
